@@ -478,11 +478,11 @@ def ref_clean(name, s):
     return out
 
 
-def bech32_encode(version, prog5):
+def bech32_encode(version, prog5, const=1):
     """A bc1 address with a correct checksum over arbitrary 5-bit data (may violate the other rules)."""
     data = [version] + list(prog5)
     hrp = [ord(c) >> 5 for c in 'bc'] + [0] + [ord(c) & 31 for c in 'bc']
-    pm = _bech32_polymod(hrp + data + [0] * 6) ^ 1
+    pm = _bech32_polymod(hrp + data + [0] * 6) ^ const
     chk = [(pm >> 5 * (5 - i)) & 31 for i in range(6)]
     return 'bc1' + ''.join(_B32[v] for v in data + chk)
 
